@@ -41,16 +41,24 @@ def ldap_alt_events():
     """LDAP StartTLS messages whose outer SEQUENCE / operation length is written in the BER long form (1, 2 or 4 length octets)"""
     from cryptoparser.tls import ldap as L
     evs = []
-    objs = [L.LDAPExtendedRequestStartTLS()] + [L.LDAPExtendedResponseStartTLS(rc) for rc in list(L.LDAPResultCode)[:4]]
+    objs = [L.LDAPExtendedRequestStartTLS()] + [L.LDAPExtendedResponseStartTLS(rc) for rc in list(L.LDAPResultCode)[:4] + [L.LDAPResultCode(10)]]
     for obj in objs:
         kind, a, typ = wire_starttls.message_abs(obj)
         wire = bytes(obj.compose())
         # DER layout of the composed message: 30 LL 02 01 id <tag> LL op...
         idp, rest = wire[2:5], wire[5:]
         tag, op = rest[0], rest[2:]
-        for where in ('outer', 'op'):
+        for where in ('outer', 'op', 'referral'):
             for k in (1, 2, 4):
-                if where == 'outer':
+                if where == 'referral':
+                    if tag != 0x78 or k > 2:
+                        continue
+                    uri = bytes([4, 8]) + b'ldap://h'
+                    ref = bytes([0xa3, len(uri) * k]) + uri * k
+                    inner = bytes([tag, len(op) + len(ref)]) + op + ref
+                    body = idp + inner
+                    alt = bytes([0x30, len(body)]) + body
+                elif where == 'outer':
                     body = idp + rest
                     alt = bytes([0x30, 0x80 + k]) + len(body).to_bytes(k, 'big') + body
                 else:
